@@ -105,7 +105,12 @@ def run(out, tier, seed):
     wheres = [w for w in qgen.systematic() if not qgen.scope_leak(w) and '"graph"' not in json.dumps(w)]
     rng.shuffle(wheres)
     special = [w for w in wheres if '"subselect"' in json.dumps(w) and ('"optional"' in json.dumps(w) or '"union"' in json.dumps(w))]
-    sel = (special[:150 if quick else 600] + wheres)[:500 if quick else 2000]
+    # (the pool keeps growing: families that a seeded change once needed are kept in the quick sample by name, not by luck of the shuffle)
+    def block_after(w, kinds=("minus", "values", "union", "group")):
+        ts = [e["t"] for e in w["elts"]]
+        return any(ts[i] in kinds and "bgp" in ts[i + 1:] for i in range(len(ts)))
+    after = [w for w in wheres if block_after(w)]
+    sel = (special[:150 if quick else 600] + after[:80 if quick else 400] + wheres)[:560 if quick else 2400]
     jobs = []
     G1 = [[I("n1"), I("p"), N(1)], [I("n1"), I("q"), I("n1")], [I("n2"), I("p"), N(2)], [I("n2"), I("q"), N(1)], [I("n1"), I("p"), I("n2")], [I("n2"), I("q"), I("n3")]]
     stores = [("graph", "Memory"), ("graph", "SimpleMemory"), ("graph", "Auditable"), ("aggregate", "Memory"), ("graph_shared", "Memory"), ("graph_shared", "Auditable")]
